@@ -180,9 +180,9 @@ void one(int sel, const std::string& content, const char* tag)
       vfz::count("excluded_known.mps-rational-rows-null");
       return;
    }
-   if(std::is_same<R, Rational>::value && vfz::known("rat-exponent-overflow") && vfz::hasHugeExponent(text))
+   if(std::is_same<R, Rational>::value && vfz::known("rat-exponent-unbounded") && vfz::hasHugeExponent(text))
    {
-      vfz::count("excluded_known.rat-exponent-overflow");
+      vfz::count("excluded_known.rat-exponent-unbounded");
       return;
    }
    if(std::is_same<R, Rational>::value && vfz::known("rat-denominator-unchecked") && vfz::hasBadDenominator(text))
@@ -217,6 +217,7 @@ void one(int sel, const std::string& content, const char* tag)
    try
    {
       std::istringstream in(text);
+      vfz::LeakScope ls(noNames);
       bool ok = autodetect ? lp.read(in, prn, pcn, piv) : (mps ? lp.readMPS(in, prn, pcn, piv) : lp.readLPF(in, prn, pcn, piv));
       outcome = ok ? 1 : 0;
    }
